@@ -142,7 +142,7 @@ def _ledger(pid, focus, level_text, extra_assume):
       'harness_args': [],
     }
 META['C01'] = _ledger('C01', 'C01 focus: outputs/siafunds inflated by one unit, wrong contract tax, miner payout off by one; oracle after every applied block: unspent outputs + unresolved contracts + unclaimed pool + forfeited = genesis + scheduled subsidies, siafunds = 10000, every claim = floor((pool-start)/10000)*value, payout = reward + fees.',
-  'Proved on the model: an accepted block pays miners exactly reward + v1 fees + v2 fees; a claim is floor((pool - claim start)/10000) * value and is defined whenever claim start <= pool; accepted v2 revisions keep the contract total. The implementation is tied to the model by recomputing every block of generated chains (verdicts, diffs, pool, ledger sums over the model\'s own store); the conservation equation over histories is evaluated by the model\'s sums and an independent Go-side oracle after every block.',
+  'Proved on the model: an accepted block pays miners exactly reward + v1 fees + v2 fees; a claim is floor((pool - claim start)/10000) * value and is defined whenever claim start <= pool; accepted v2 revisions keep the contract total; the value flow of every accepted transaction balances: for v2, inputs spent + contract value released = outputs + value locked in new contracts and renewals + their tax + fee + resolution payouts + forfeited host value; for v1, spent values (as validation resolves the parents) = outputs + contract payouts + fees. The implementation is tied to the model by recomputing every block of generated chains (verdicts, diffs, pool, ledger sums over the model\'s own store); the conservation equation over histories is evaluated by the model\'s sums and an independent Go-side oracle after every block.',
   ['conservation over whole histories is not yet a Coq theorem (it is computed by the model and compared)'])
 META['C02'] = _ledger('C02', 'C02 focus: the same input twice in a transaction (re-signed), in two transactions, v1+v2, an ephemeral output spent twice, revise twice, prove twice, revise after proof, resolve twice, and across blocks: spent outputs / resolved contracts presented again with their maintained proofs (v2) or in the supplement (v1).',
   'Proved on the model: an accepted v2 transaction spends pairwise distinct outputs, none used earlier in the block, each either ephemeral or the current unspent leaf of the store; a leaf marked spent is never accepted again whatever proof accompanies it; what is accepted is exactly the current unspent leaf. Tied to the code by recomputing every duplicated-use variant (error class included).', [])
